@@ -27,8 +27,9 @@ ASSUMPTIONS = [
 ]
 REQUIRED = {
     "fresh_checked": {"quick": 6000, "thorough": 60000},
-    "superset_checked": {"quick": 3000, "thorough": 30000},
-    "rejections_checked": {"quick": 2000, "thorough": 20000},
+    "superset_checked": {"quick": 2000, "thorough": 24000},
+    "rejections_checked": {"quick": 1500, "thorough": 15000},
+    "refilled_buffers_checked": {"quick": 1000, "thorough": 12000},
 }
 N_CASES = {"quick": 8000, "thorough": 96000}
 
@@ -82,6 +83,31 @@ def run_shard(rec, tier, seed, shard, nshards):
         if ci < 2 and shard == 0:
             rec.sample({"kind": "fresh", "control": kw["control_treatment_name"], "names": kw["treatment_names"].tolist()[:6], "doses": kw["treatment_doses"].tolist()[:6], "ids": np.asarray(s.treatment_ids).tolist()[:6]})
 
+        if rng.random() < 0.25:
+            # ---- the caller refills its buffers: same array OBJECTS, changed content, constructed again
+            #      (Plate.merge + mask_screen do exactly this with plate_names)
+            for what in rng.permutation(["plate_names", "sample_names", "treatment_names", "treatment_doses"])[: int(rng.integers(1, 3))]:
+                arr = kw[str(what)]
+                flat = arr.reshape(-1)
+                for _ in range(int(rng.integers(1, 4))):
+                    i, j = int(rng.integers(flat.size)), int(rng.integers(flat.size))
+                    if what == "treatment_doses":
+                        flat[i] = float(rng.choice(gen.HOSTILE_DOSES))
+                    elif rng.random() < 0.5:
+                        flat[i] = flat[j]
+                    else:
+                        flat[i] = str(rng.choice(gen.HOSTILE_NAMES))[: max(1, arr.dtype.itemsize // 4)]
+            kwr = {k: v for k, v in kw.items() if k != "observation_mask"}  # a changed plate layout may make an old mask mixed
+            try:
+                s_again = Screen(**kwr)
+            except Exception as e:
+                rec.case(None, nontrivial=False)
+                rec.violation("C01/construct/fresh-raises", "constructor raised %r on re-used (refilled) arrays" % (e,), witness(kwr))
+            else:
+                rec.case(abstract(kwr, s_again) + ("refilled",), nontrivial=nontrivial(kwr))
+                rec.count("refilled_buffers_checked")
+                oracle(rec, s_again, kwr)
+            continue
         if rng.random() < 0.55:
             # ---- subset re-constructed with the superset's mappings
             n = s.size
@@ -232,6 +258,13 @@ def piggyback(rec, tier, rng):
                 pid = int(rng.choice(tr.unique_plate_ids))
                 tr2 = R.reveal_plates(tr, [pid])
                 R.unmask_screen(tr2)
+                # merge two plates in place (changes plate_names of tr2's own array), then rebuild from the same arrays
+                pls = R.mask_screen(tr2)
+                if pls.n_plates >= 2:
+                    a, b = pls.plates[0], pls.plates[-1]
+                    a.merge(b)
+                    m2 = R.mask_screen(pls)
+                    rec.check(int(m2.n_plates) == len(set(str(x) for x in m2.plate_names)) and sorted(set(int(x) for x in m2.plate_ids)) == list(range(m2.n_plates)), "C01/plate/ids-not-dense", "after Plate.merge + mask_screen the plate ids are not the dense range over the plate names", None)
                 rec.count("piggyback_pipelines")
             except Exception as e:
                 rec.did_not_return("piggyback", e)
